@@ -99,6 +99,12 @@ func (w *ssWorld) connect(o ssConnectOpts) bool {
 		p.Lazy = t.Draw("lazy", 4) == 3
 		p.MaxRead = []int{0, 0, 1, 7, 1448}[t.Draw("maxread", 5)]
 	}
+	// the bridge may hang up as soon as it has sent and received everything
+	// while the client still has bytes coming; the link may then report the
+	// end of the stream in the same read as the last bytes
+	hangUp := !o.wrongSecret && o.tamperReply == 0 && !o.tamperPacket && t.Draw("hangup", 4) == 3
+	link.BA.ErrWithData = hangUp && t.Draw("ewd", 2) == 1
+	hungUp := false
 	ending := false
 	useSecret := secret
 	if o.wrongSecret {
@@ -140,7 +146,15 @@ func (w *ssWorld) connect(o ssConnectOpts) bool {
 	var cliRdDone, cliWrDone, srvWrDone bool
 	var accepted *obfsref.SSHandshakeResult
 	var tamperedAt int64 = -1
+	endReads := 0
 
+	maybeHangUp := func() {
+		if hangUp && !hungUp && srvWrDone && cliWrDone && srvGot == cTotal {
+			hungUp = true
+			c.S.Count("fault.bridge-hangs-up-with-data-in-flight", 1)
+			link.B.Close()
+		}
+	}
 	c.S.Go("r/accept"+cn, func() {
 		var buf []byte
 		tmp := make([]byte, 4096)
@@ -280,6 +294,10 @@ func (w *ssWorld) connect(o ssConnectOpts) bool {
 						}
 						srvGot += int64(len(pk.Payload))
 					}
+					maybeHangUp()
+					if hungUp {
+						return
+					}
 					if ferr != nil {
 						c.Violate("C15/server-cannot-decode", "%v opts %+v: reference server cannot authenticate a client packet after %d payload bytes (handshake via ticket: %v): %v", w.hist, o, srvGot, accepted.Ticket != nil, ferr)
 						return
@@ -357,6 +375,7 @@ func (w *ssWorld) connect(o ssConnectOpts) bool {
 			link.B.Write(tail)
 		}
 		srvWrDone = true
+		maybeHangUp()
 	})
 	c.S.Go(cn+"/dial", func() {
 		t0 := time.Now()
@@ -390,6 +409,16 @@ func (w *ssWorld) connect(o ssConnectOpts) bool {
 				if tamperedAt >= 0 && cliGot > tamperedAt {
 					c.Violate("C15/delivered-past-tampered-packet", "client delivered %d bytes although the packet starting at %d was modified", cliGot, tamperedAt)
 					return
+				}
+				if err == io.EOF && hungUp {
+					// the bridge hung up: read on while data keeps coming
+					if n == 0 {
+						if endReads++; endReads >= 3 {
+							cliErr, cliRdDone = err, true
+							return
+						}
+					}
+					continue
 				}
 				if err != nil {
 					cliErr, cliRdDone = err, true
